@@ -402,6 +402,32 @@ fn canon_real(v: &Value, how: usize) -> Result<(Value, String), String> {
 // C09
 // ---------------------------------------------------------------------------
 
+/// A wide object (n members) whose keys are in canonical order except for the
+/// last `t` members, which belong at random places (inside the sorted part,
+/// after it, before it). Nested one level down half of the time.
+pub fn nearly_sorted_object(rng: &mut Rng, n: usize, t: usize) -> RVal {
+	let mut keys: Vec<String> = (0..n).map(|j| format!("k{:03}", j * 2)).collect();
+	keys.sort_by(|a, b| a.encode_utf16().cmp(b.encode_utf16()));
+	let mut entries: Vec<(String, RVal)> = keys.iter().enumerate().map(|(j, k)| (k.clone(), RVal::Num(j.to_string()))).collect();
+	for x in 0..t {
+		let k = match rng.below(4) {
+			0 => format!("k{:03}", 2 * rng.below(n) + 1),
+			1 => format!("k{:03}b{}", 2 * rng.below(n), x),
+			2 => format!("zz{}", x),
+			_ => format!("a{}", x),
+		};
+		if !entries.iter().any(|e| e.0 == k) {
+			entries.push((k, RVal::Bool(x % 2 == 0)));
+		}
+	}
+	let o = RVal::Obj(entries);
+	if rng.chance(1, 2) {
+		RVal::Arr(vec![RVal::Null, o])
+	} else {
+		o
+	}
+}
+
 fn c09_one(rep: &mut Report, fam: &str, r: &RVal, tick: u64) {
 	rep.evaluations += 1;
 	let mut want = String::new();
@@ -540,6 +566,25 @@ pub fn run_c09(cfg: &Config) -> i32 {
 		let _ = (&mut idx, n);
 		rep.distinct_by_construction(cnt);
 		rep.count("family:key-pool-permutations", cnt);
+		rep
+	});
+	total.merge(rep);
+	// wide objects in canonical order except for a few members at the end
+	let rep = parallel(cfg.threads, 16, |i| {
+		let mut rep = Report::new();
+		let mut rng = Rng::new(seed).fork(0xc09e + i as u64);
+		let mut cnt = 0u64;
+		for n in (1..=(if cfg.san { 40usize } else { 96 })).filter(|n| n % 16 == i) {
+			for t in 0..=9usize {
+				for _ in 0..2 {
+					let r = nearly_sorted_object(&mut rng, n, t);
+					cnt += 1;
+					c09_one(&mut rep, "nearly-sorted-wide-objects", &r, cnt);
+				}
+			}
+		}
+		rep.distinct_by_construction(cnt);
+		rep.count("family:nearly-sorted-wide-objects", cnt);
 		rep
 	});
 	total.merge(rep);
@@ -1048,6 +1093,51 @@ pub fn run_c10(cfg: &Config) -> i32 {
 	if cfg!(miri) {
 		eprintln!("miri progress: C10 edit sequences and deep documents done after {:.0} s", started.elapsed().as_secs_f64());
 	}
+	// wide objects in canonical order except for a few members at the end, against shuffled copies
+	let rep = parallel(cfg.threads, if cfg!(miri) { 2 } else { 16 }, |i| {
+		let mut rep = Report::new();
+		let mut rng = Rng::new(seed).fork(0xc10e + i as u64);
+		let sizes: Vec<usize> = if cfg!(miri) { vec![34] } else { (1..=(if cfg.san { 40usize } else { 96 })).filter(|n| n % 16 == i).collect() };
+		for n in sizes {
+			for t in 0..=9usize {
+				let r = nearly_sorted_object(&mut rng, n, t);
+				let shuffle = |rng: &mut Rng, r: &RVal| -> RVal {
+					let mut c = r.clone();
+					let o = match &mut c {
+						RVal::Arr(a) => a.last_mut().unwrap(),
+						other => other,
+					};
+					if let RVal::Obj(e) = o {
+						rng.shuffle(e);
+					}
+					c
+				};
+				let alt = shuffle(&mut rng, &r);
+				rep.evaluations += 1;
+				rep.distinct_by_construction(1);
+				rep.count("nearly_sorted_wide_objects", 1);
+				let case = json!({"sub": "canon-pair", "a": doc_of(&r), "b": doc_of(&alt)});
+				match (canon_real(&from_rval(&r), t % 3), canon_real(&from_rval_push(&alt), 0)) {
+					(Ok((c1, s1)), Ok((_, s2))) => {
+						if s1 != s2 {
+							rep.violation("C10:permutation-changes-canonical-form", format!("an object of {} members sorted except for its last {} and a shuffled copy canonicalize differently: `{}` vs `{}`", n, t, show(s1.as_bytes()), show(s2.as_bytes())), case.clone());
+						}
+						match canon_real(&c1, 0) {
+							Ok((_, s3)) if s3 == s1 => (),
+							Ok((_, s3)) => rep.violation("C10:not-idempotent", format!("canonicalizing twice changes `{}` into `{}`", show(s1.as_bytes()), show(s3.as_bytes())), case.clone()),
+							Err(p) => rep.violation("C10:panic", format!("second canonicalization panicked: {}", p), case.clone()),
+						}
+						if let Ok(Err(m)) = guard(|| check_queryable(&c1)) {
+							rep.violation("C10:stale-index", format!("after canonicalizing a nearly sorted object of {} members: {}", n, m), case.clone());
+						}
+					}
+					(a, b) => rep.violation("C10:panic", format!("canonicalize panicked: {:?} {:?}", a.err(), b.err()), case),
+				}
+			}
+		}
+		rep
+	});
+	total.merge(rep);
 	// numerically equal spellings of single numbers (including the zeros)
 	let n = cfg.budget(100_000, 5_000_000);
 	let rep = parallel(cfg.threads, shards, |i| {
